@@ -1,4 +1,5 @@
 import Proofs.Codec.Message
+import AiocoapModel.Codec.Receive
 /-!
 # C01 — CoAP datagram codec: lossless round trip, RFC 7252 §3 format, total parsing
 
@@ -169,6 +170,44 @@ theorem C01_accepted_language (raw : Bytes) (m : Msg) (hw : raw.wf) (h : decode 
     (∃ vttkl rest, raw = vttkl :: rest ∧ (8 < vttkl % 16 ∨ rest.length < 3 + vttkl % 16)) :=
   decode_accepted hw h
 
+-- the udp6 receive path (socket → dispatch) ---------------------------------------------------
+
+/-- Whatever the buffer size and the datagram's size: the transport dispatches the message that
+`Message.decode` reads out of the *whole* datagram, or nothing; never a message read out of a part
+of it, and no exception reaches the event loop. -/
+theorem C01_udp6_whole_or_nothing (bufsize : Nat) (d : Bytes) :
+    udp6ReceiveWith bufsize d = .dropped ∨
+    ∃ m, udp6ReceiveWith bufsize d = .dispatched m ∧ decode d = .ok m := by
+  unfold udp6ReceiveWith kernelRecvmsg
+  by_cases hc : bufsize < d.length
+  · left; simp [hc]
+  · have ht : d.take bufsize = d := List.take_of_length_le (by omega)
+    simp only [hc, decide_false, ht]
+    cases h : decode d with
+    | ok m => right; exact ⟨m, by simp, rfl⟩
+    | error e => left; rw [decode_error h]; simp
+
+/-- **"All byte strings up to a datagram's size"**: for every byte string a UDP datagram can carry
+the udp6 transport is transparent — a message is dispatched iff the bytes parse, and it is that
+message; only what the parser rejects is dropped. -/
+theorem C01_udp6_transparent (d : Bytes) (hl : d.length ≤ maxUdpPayload) :
+    udp6Receive d = (match decode d with
+                     | .ok m => .dispatched m
+                     | .error _ => .dropped) := by
+  unfold udp6Receive udp6ReceiveWith kernelRecvmsg
+  have hc : ¬ recvBufSize < d.length := by unfold recvBufSize; unfold maxUdpPayload at hl; omega
+  have ht : d.take recvBufSize = d := List.take_of_length_le (by omega)
+  simp only [hc, decide_false, ht]
+  cases h : decode d with
+  | ok m => simp
+  | error e => rw [decode_error h]; simp
+
+/-- **Every RFC-well-formed datagram that arrives on the udp6 socket is dispatched as the message
+the RFC assigns to it** (second sentence of the property, at the transport named by the anchors). -/
+theorem C01_udp6_rfc_is_dispatched (d : Bytes) (m : Msg) (h : Datagram d m)
+    (hl : d.length ≤ maxUdpPayload) : udp6Receive d = .dispatched m := by
+  rw [C01_udp6_transparent d hl, C01_rfc_is_parsed d m h]
+
 -- non-vacuity --------------------------------------------------------------------------------
 
 /-- a message with every format, repeated options, an unknown number, and deltas
@@ -247,5 +286,17 @@ example : decode [0x49, 0x01, 0x00, 0x01, 1, 2, 3, 4, 5, 6, 7, 8, 9] =
 example : decode [0x40, 0x01, 0x00, 0x01, 0xFF] =
     .ok { mtype := 0, code := 1, mid := 1, token := [], opts := [], payload := [] } := by
   simp [decode, decodeOpts]
+
+/-- the receive path on a concrete datagram; and the buffer size matters: with a buffer shorter
+than the datagram (what `max_size = 4096` was for a 4097 byte datagram) the same well-formed
+datagram is lost -/
+example : udp6Receive [0x41, 0x01, 0x00, 0x01, 0xAA, 0xB1, 0x61, 0xFF, 0x68, 0x69] =
+    .dispatched { mtype := 0, code := 1, mid := 1, token := [0xAA],
+                  opts := [{ num := 11, val := .str [0x61] }], payload := [0x68, 0x69] } := by
+  rw [C01_udp6_transparent _ (by decide)]
+  simp [decode, decodeOpts, readExt, valDecode, formatOf, utf8Valid]
+
+example : udp6ReceiveWith 9 [0x41, 0x01, 0x00, 0x01, 0xAA, 0xB1, 0x61, 0xFF, 0x68, 0x69] = .dropped := by
+  simp [udp6ReceiveWith, kernelRecvmsg]
 
 end Aiocoap.Codec
